@@ -39,6 +39,14 @@ impl World {
     fn drain(&mut self, i: usize) -> (Vec<Message>, bool) { let mut out = vec![]; let mut closed = false; if let Some(c) = self.clients[i].as_mut() { loop { match recv(c) { Some(Ok(m)) => out.push(m), Some(Err(())) => { closed = true; break; } None => break } } } if closed { self.clients[i] = None; } (out, closed) }
 }
 
+fn stats(w: &mut World) -> model::Stats {
+    let mut h = w.handle.clone();
+    let mut fut: Pin<Box<dyn Future<Output = aldrin_broker::BrokerStatistics>>> = Box::pin(async move { h.take_statistics().await.unwrap() });
+    let wk = waker(); let mut cx = Context::from_waker(&wk);
+    for _ in 0..100 { if let Poll::Ready(st) = fut.as_mut().poll(&mut cx) { return model::Stats { conns: st.num_connections(), objs: st.num_objects(), svcs: st.num_services(), chans: st.num_channels(), lis: st.num_bus_listeners() }; } poll(&mut w.btask); }
+    panic!("take_statistics did not complete")
+}
+static mut VIOL: u64 = 0;
 fn canon(m: &Message) -> String { match m {
     Message::QueryServiceInfoReply(QueryServiceInfoReply { serial, result: QueryServiceInfoResult::Ok(v) }) => format!("QSIR({serial},{:?})", v.deserialize::<ServiceInfo>()),
     other => format!("{other:?}") } }
@@ -109,24 +117,38 @@ fn run_history(seed: u64, len: usize, verbose: bool) -> Result<usize, String> {
     let mut p = Pools { obj_uuids: vec![u(1), u(2), u(3)], svc_uuids: vec![u(11), u(12), u(13)], obj_cookies: vec![], svc_cookies: vec![], chan_cookies: vec![], lis_cookies: vec![], bserials: vec![] };
     let nconn = 2 + r.below(3);
     for _ in 0..nconn { let v = [14u32, 15, 16, 17, 18, 19, 20, 20, 20][r.below(9)]; let i = w.connect(v); m.new_conn(i, v.min(20)); }
-    let mut log: Vec<String> = vec![];
+    let mut log: Vec<String> = vec![]; let mut dropped: Vec<usize> = vec![];
     for step in 0..len {
         let alive: Vec<usize> = (0..w.clients.len()).filter(|i| w.clients[*i].is_some()).collect();
-        if alive.is_empty() { break; }
+        if alive.is_empty() { return Ok(step); }
         let c = r.pick(&alive);
-        let roll = r.below(100);
+        let roll = r.below(400);
         let (desc, model_out): (String, Vec<(usize, Message)>);
         let mut real_out: Vec<Vec<Message>> = vec![];
-        if roll < 1 {
+        if roll < 2 {
             // disconnect by dropping the client's transport
             w.clients[c] = None; w.settle();
             for j in 0..w.clients.len() { real_out.push(w.drain(j).0); }
             desc = format!("disconnect(drop transport) c{c}"); model_out = m.conn_shutdown(c);
-        } else if roll < 2 {
+        } else if roll < 4 {
             send(w.clients[c].as_mut().unwrap(), Shutdown); w.settle();
             for j in 0..w.clients.len() { let (mut o, _) = w.drain(j); if j == c { o.retain(|x| !matches!(x, Message::Shutdown(_))); w.clients[c] = None; } real_out.push(o); }
             desc = format!("disconnect(Shutdown msg) c{c}"); model_out = m.conn_shutdown(c);
-        } else if roll < 4 && w.clients.len() < 7 {
+        } else if roll < 6 {
+            // drop the connection task (the broker is not told); the client's transport closes
+            w.tasks[c] = None; w.clients[c] = None; dropped.push(c); w.settle();
+            for j in 0..w.clients.len() { real_out.push(w.drain(j).0); }
+            desc = format!("drop task of c{c}"); m.drop_task(c); model_out = vec![];
+        } else if roll < 10 {
+            // send a request, let only the connection task forward it, then drop the task
+            let msg = gen_msg(&mut r, &p, &m, c);
+            desc = format!("c{c} sends {:?} and its task is dropped while the request is queued", msg);
+            send(w.clients[c].as_mut().unwrap(), msg.clone()); for _ in 0..4 { poll(&mut w.tasks[c]); }
+            w.tasks[c] = None; w.clients[c] = None; dropped.push(c); w.settle();
+            for j in 0..w.clients.len() { real_out.push(w.drain(j).0); }
+            for o in &real_out { for x in o { match x { Message::CallFunction(cf) => p.bserials.push(cf.serial), Message::CallFunction2(cf) => p.bserials.push(cf.serial), _ => {} } } }
+            m.drop_task(c); model_out = m.message(c, msg, None);
+        } else if roll < 22 && alive.len() < 5 {
             let v = [14u32, 16, 17, 18, 19, 20][r.below(6)]; let i = w.connect(v); m.new_conn(i, v);
             for j in 0..w.clients.len() { real_out.push(w.drain(j).0); }
             desc = format!("connect c{i} v1.{v}"); model_out = vec![];
@@ -149,11 +171,14 @@ fn run_history(seed: u64, len: usize, verbose: bool) -> Result<usize, String> {
             let before: Vec<usize> = m.conns.keys().cloned().collect();
             model_out = match catch_unwind(AssertUnwindSafe(|| m.message(c, msg, fresh))) { Ok(o) => o, Err(_) => return Err(format!("step {step}: MODEL PANIC on {desc}\nlog:\n{}", log.join("\n"))) };
             let removed: Vec<usize> = before.into_iter().filter(|x| !m.conns.contains_key(x)).collect();
-            let mut rm = removed.clone(); rm.sort(); let mut cn = closed_now.clone(); cn.sort();
+            let mut rm: Vec<usize> = removed.iter().cloned().filter(|x| !dropped.contains(x)).collect(); rm.sort(); let mut cn = closed_now.clone(); cn.sort();
             if rm != cn { return Err(format!("step {step}: {desc}\n  model removed conns {rm:?} but real closed {cn:?}\nlog:\n{}", log.join("\n"))); }
         }
         log.push(format!("{step}: {desc}")); if verbose { println!("{step}: {desc}"); }
         for o in &real_out { for x in o { let d = format!("{x:?}"); let k: String = d.chars().take_while(|ch| ch.is_alphanumeric()).collect(); let extra = if d.contains("Ok") { "+Ok" } else { "" }; stat(format!("{k}{extra}")); } }
+        let rs = stats(&mut w);
+        if rs != m.stats { return Err(format!("step {step}: {desc}\n  gauges differ: real {rs:?} model {:?}\nlog:\n{}", m.stats, log.join("\n"))); }
+        if rs != m.true_stats() { unsafe { VIOL += 1; if VIOL <= 2 { println!("PROPERTY(C09 stats) VIOLATED at step {step}: gauges {rs:?} true {:?}\n  last op: {desc}", m.true_stats()); } } }
         // compare per connection as multisets
         for j in 0..real_out.len() {
             let mut a: Vec<String> = real_out[j].iter().map(canon).collect(); a.sort();
@@ -175,6 +200,6 @@ fn main() {
             Err(_) => { fails += 1; if fails <= 3 { println!("=== history {h}: REAL PANIC/harness panic ==="); } }
         }
     }
-    println!("histories={n} steps~{steps} failures={fails}");
+    println!("histories={n} steps~{steps} failures={fails} stats_property_violations={}", unsafe { VIOL });
     unsafe { if let Some(m) = &*std::ptr::addr_of!(STATS) { for (k, v) in m { println!("  {k}: {v}"); } } }
 }
